@@ -16,7 +16,9 @@ RULE = ("msprime tree sequences with ploidy=2 contemporary individuals (2-4 indi
         "individual's other node with probability 1/2); x singletons_phased in {True, False}; x one random option "
         "set per re-phasing pair (match_segregating_sites, rescaling_intervals in {0, 2, 5, 20, default}, "
         "rescaling_iterations incl. 0, max_iterations, max_shape, regularise_roots; 30% of the sets passed as numpy "
-        "scalars); the unphased run is repeated on the same object and must be bit-identical. "
+        "scalars); the unphased run is repeated on the same object and must be bit-identical; in half of the cases the "
+        "fitted phases of a random subset of singletons are overwritten just before the switch with NaN / 0.5 / 0.0 / "
+        "1.0 (rescaling off), in the implementation and in the model input alike, for the input and its re-phased twin. "
         "A case is non-trivial when at least one singleton exists on an unphased individual")
 ASSUME = ["tskit's tables satisfy valid_tablesb (checked inside Coq on every input)",
           "the values of mutation_phase < 0.5 are taken from the run (the EP numerics are not part of this model)",
@@ -99,8 +101,11 @@ def by_state(ts):
 
 
 # ---------------------------------------------------------------- implementation side
-def run_ep(ts, mu, phased, rescale):
-    """ExpectationPropagation.infer with the pre-switch phases recorded from outside"""
+def run_ep(ts, mu, phased, rescale, inject=None):
+    """ExpectationPropagation.infer with the pre-switch phases recorded from outside.
+    inject: {derived_state: value} -- after the last propagate_mutations call (i.e. just before the
+    switch) the fitted phase of those singletons is overwritten in place (NaN = a skipped update, and
+    the boundary values 0.5, 0.0, 1.0): regimes the EP numerics reach only rarely"""
     import tsdate.variational as variational
     import tsdate.core as core
     with S.time_limit(120):
@@ -108,8 +113,14 @@ def run_ep(ts, mu, phased, rescale):
         phases = []
         orig = fit.propagate_mutations
 
+        states = [m.derived_state for m in ts.mutations()]
+
         def spy(*args):
             orig(*args)
+            if inject and len(phases) == 1:          # second (= last) call: the switch comes next
+                for m, st in enumerate(states):
+                    if st in inject and fit.mutation_blocks[m] != -1:
+                        args[2][m] = inject[st]
             phases.append(np.array(args[2], dtype=float).copy())
         fit.propagate_mutations = spy
         in_edges = fit.mutation_edges.copy()
@@ -324,8 +335,32 @@ def run(ctx, model_ok=True):
         try:
             nsing = oracle(ctx, ctx.rng, ts, mu, rescale)
             ts2, moved = rephase(ctx.rng, ts)
-            ep = run_ep(ts, mu, False, rescale)
+            inject = None
+            if ctx.rng.random() < 0.5:
+                partner = partner_map(ts)
+                sing = [m.derived_state for m in ts.mutations() if int(m.node) in partner]
+                inject = {st: ctx.rng.choice([float("nan"), float("nan"), 0.5, 0.0, 1.0])
+                          for st in sing if ctx.rng.random() < 0.5}
+            ep_opts = dict(rescale, rescaling_intervals=0) if inject else rescale   # (with rescaling on, a NaN
+            # phase trips the closing assertion of reallocate_unphased on the unchanged code: C23 / K8 matter)
+            ep = run_ep(ts, mu, False, ep_opts, inject)
             ep_phased = run_ep(ts, mu, True, rescale)
+            if inject:
+                # injected phases: the placement of every singleton must not depend on the input phase
+                ep2 = run_ep(ts2, mu, False, ep_opts, inject)
+                k1 = {m.derived_state: ep["out_nodes"][m.id] for m in ts.mutations()}
+                k2 = {m.derived_state: ep2["out_nodes"][m.id] for m in ts2.mutations()}
+                ctx.tally("injected_phase_cases")
+                if k1 != k2:
+                    bad = sorted(k for k in k1 if k1[k] != k2.get(k))
+                    ctx.oracle_fail("rephase:injected-phase:mutation-nodes",
+                                    "with the fitted phases of some singletons set to NaN / 0.5 / 0 / 1 before the switch, "
+                                    "mutations %r are placed on different nodes for two inputs that differ only in the "
+                                    "input phase: %r vs %r (injected %r)" % (
+                                        bad[:5], [k1[k] for k in bad[:5]], [k2.get(k) for k in bad[:5]],
+                                        {k: inject.get(k) for k in bad[:5]}),
+                                    dict(rp, inject={k: repr(v) for k, v in inject.items()},
+                                         rephased_mutation_nodes={k: v[1] for k, v in by_state(ts2).items()}))
         except S.ImplTimeout as e:
             ctx.oracle_fail("timeout", str(e), rp)
             hung = True
